@@ -15,4 +15,5 @@ EmitEdge ==
 \* selftest deviations (function-valued constants cannot be written in a .cfg)
 DevSig  == {<<"AppendSectors", "HostSignature">>}
 DevData == {<<"ReadSector", "Bytes">>, <<"WriteSector", "Root">>}
+DevUnaligned == {<<"ReadUnaligned", "All">>, <<"FreeOutOfRange", "All">>}
 =============================================================================
